@@ -821,6 +821,24 @@ def rule_flow_api():
             for n in ast.walk(st):
                 if isinstance(n, ast.Call) and any(isinstance(a, ast.Starred) and ast.unparse(a.value) == "tensor_args" for a in n.args):
                     failing.append(site + " (tensor arguments are applied before the graph is built)")
+        # the cached callable is lru_cache(partial(_construct_graph, ...)) and nothing else (bound once in the enclosing function)
+        binds = [st for st in ast.walk(fo) if isinstance(st, ast.Assign) and any(isinstance(t, ast.Name) and t.id == "construct_graph_with_cache" for t in st.targets)]
+        if len(binds) != 1 or not ast.unparse(binds[0].value).startswith("lru_cache(partial(_construct_graph, func=func"):
+            failing.append(site + " (construct_graph_with_cache is not exactly lru_cache(partial(_construct_graph, func=func, ...)))")
+    # the middle link: in _construct_graph the pair returned is the pair compile() returned - one assignment from backend.compiler.compile(graph,
+    # return_code=True), one `return function, code`, neither name bound anywhere else (so the function object and the text come from ONE compile)
+    fc = find_func(tree, "_construct_graph")
+    site = f"{rel(p)}:{fc.lineno}:_construct_graph"
+    sites.append(site)
+    stores = [n for n in ast.walk(fc) if isinstance(n, ast.Name) and isinstance(n.ctx, ast.Store) and n.id in ("function", "code")]
+    pair = [st for st in fc.body if isinstance(st, ast.Assign) and ast.unparse(st.targets[0]) in ("function, code", "(function, code)")]
+    rets = [n for n in ast.walk(fc) if isinstance(n, ast.Return)]
+    if not (len(pair) == 1 and len(stores) == 2 and ast.unparse(pair[0].value) == "backend.compiler.compile(graph, return_code=True)"):
+        failing.append(site + " (`function`/`code` must be bound exactly once, together, from backend.compiler.compile(graph, return_code=True))")
+    if not (len(rets) == 1 and ast.unparse(rets[0]) == "return (function, code)" and fc.body[-1] is rets[0]):
+        failing.append(site + " (must end in the single statement `return function, code`)")
+    if pair and rets and any(isinstance(n, ast.Name) and n.id in ("function", "code") for st in fc.body[fc.body.index(pair[0]) + 1 : -1] for n in ast.walk(st)):
+        failing.append(site + " (the compiled pair is touched between compile() and the return)")
     return not failing, sites, failing
 
 
